@@ -161,9 +161,23 @@ Section Exact.
   Definition P_mwhens (l : mmwhens) := set_eq (flat_map C (ast_mwhens l)) (items_mwhens l).
   Definition P_stmt (s : mstmt) := set_eq (C (ast_stmt s)) (items s).
 
-  Lemma first_shared (fr : list qn) t r : fr = ast_tref t :: r ->
-    flat_map C (map shared_copy [ast_tref t]) = [].
-  Proof. intros _. cbn [map flat_map]. rewrite C_shared_copy_tref. reflexivity. Qed.
+  (* whichever FROM item the join list attaches to, its shared copy contributes nothing *)
+  Lemma trefs_shared (from : mtrefs) : forall f, In f (ast_trefs from) -> C (shared_copy f) = [].
+  Proof.
+    induction from as [|t r IH]; cbn [ast_trefs In]; [tauto|].
+    intros f [E|H]; [subst; apply C_shared_copy_tref|apply IH; exact H].
+  Qed.
+  Lemma join_left_incl (l : list qn) f : In f (join_left l) -> In f l.
+  Proof.
+    unfold join_left. destruct (rev l) as [|x r] eqn:E; [intros []|].
+    intros [H|[]]. subst. apply in_rev. rewrite E. left. reflexivity.
+  Qed.
+  Lemma shared_join_left (from : mtrefs) : flat_map C (map shared_copy (join_left (ast_trefs from))) = [].
+  Proof.
+    assert (H := join_left_incl (ast_trefs from)).
+    unfold join_left in *. destruct (rev (ast_trefs from)) as [|x r]; [reflexivity|].
+    cbn [map flat_map]. rewrite (trefs_shared from x); [reflexivity|]. apply H. left. reflexivity.
+  Qed.
 
   Theorem items_exact_all :
     (forall e, P_expr e) /\ (forall l, P_exprs l) /\ (forall l, P_whens l) /\ (forall o, P_opt o) /\
@@ -188,6 +202,7 @@ Section Exact.
     - (* MExists *) cbn [ast_expr items_expr]. node. cbn. fin.
     - (* MSub *) cbn [ast_expr items_expr]. node. cbn. fin.
     - (* MCast *) cbn [ast_expr items_expr]. node. cbn. fin.
+    - (* MNiladic *) cbn [ast_expr items_expr]. unfold ast_niladic, items_niladic. rewrite C_node. cbn. rewrite name_nonempty. fin.
     (* mexprs *)
     - cbn. fin.
     - cbn [ast_exprs items_exprs flat_map]. fin.
@@ -241,9 +256,9 @@ Section Exact.
     (* mstmt *)
     - (* MSelect *) cbn [ast_stmt items]. node.
       rewrite C_wrap_with, C_ob_wrap.
-      assert (HJ := H2 (match ast_trefs from with f :: _ => [f] | [] => [] end) 0%nat).
-      assert (Hsh : flat_map C (map shared_copy match ast_trefs from with f :: _ => [f] | [] => [] end) = []).
-      { destruct from as [|t r]; [reflexivity|]. cbn [ast_trefs map flat_map]. rewrite C_shared_copy_tref. reflexivity. }
+      assert (HJ := H2 (join_left (ast_trefs from)) 0%nat).
+      assert (Hsh : flat_map C (map shared_copy (join_left (ast_trefs from))) = []).
+      { apply shared_join_left. }
       specialize (HJ Hsh). clear H2 Hsh.
       cbn. rewrite !app_nil_r. fin.
     - (* MSetOp *) cbn [ast_stmt items]. node. cbn. fin.
